@@ -996,6 +996,8 @@ def make_data(kind, n, seed):
         return X
     if kind == "dup_few":            # several duplicates of one cell (>= 3 made compute_d_factal NaN)
         return dups(4)
+    if kind == "dup_clump":          # a clump of 14 identical cells: whole k=10 neighbourhoods consist of copies of one cell
+        return dups(13)
     if kind == "dup_many":
         return dups(n - 3)
     if kind == "dup_block":          # adjacent duplicates: the same time point for the time-sensitive estimator
@@ -1050,7 +1052,7 @@ def make_data(kind, n, seed):
 SAME_AS = {"list": "clean", "sparse": "clean", "sparse_array": "clean", "jax": "clean", "1d": "col", "list1d": "col",
            "int": "float_of_int"}
 MUST_REFUSE = {"dup_pairs", "dup_all", "const_all", "empty", "nan_cell", "inf_cell", "nan_time", "inf_time"}
-MUST_FIT = {"clean", "dup_some", "dup_one", "dup_few", "dup_block", "const_col", "list", "sparse", "sparse_array", "jax", "f32", "col"}
+MUST_FIT = {"clean", "dup_some", "dup_one", "dup_few", "dup_clump", "dup_block", "const_col", "list", "sparse", "sparse_array", "jax", "f32", "col"}
 _FITCACHE = {}
 
 
@@ -1544,6 +1546,10 @@ def h3_witnesses():
         # A5  d_method="fractal": x and x[:, None] gave different d; several duplicates gave a NaN d         [SIG_A5, SIG_A5N]
         fit("density", "1d", dict(FRACTAL)),
         fit("density", "dup_few", dict(FRACTAL)),
+        # (seeded change C20-f: zero distances filled per neighbourhood -> NaN d when a neighbourhood holds only copies of one cell)
+        fit("density", "dup_clump", dict(FRACTAL), n=40),
+        fit("time", "dup_clump", dict(FRACTAL), n=40),
+        fit("density", "dup_clump", None, n=40),
         # A6  1-D cell states with separate time points                                                         [SIG_A6]
         fit("time", "1d"),
         {"op": "time1d", "n": n, "seed": seed, "method": "mean"},
